@@ -257,6 +257,13 @@ def client_items(tier):
                           or (fam == "mlsx" and b" " not in m.rstrip()))
                 cases.append({"op": "list", "raw": raw, "listing": L(body), "mutated": fam + "-line",
                               "expect_lines": None if dotted else 3})
+    # lines that end before the name (a truncated listing): an entry without a name is not an entry named '.'
+    for m in (b"-rw-r--r-- 1 none none 10 Jan 15 12:30", b"-rw-r--r-- 1 none none 10 Jan 15 12:30 ",
+              b"-rw-r--r-- 1 none none 10 Jan 15 12:3", b"drwxr-xr-x 2 none none 4096 Mar  3  2019",
+              b"01/15/2024  12:30 PM    <DIR> ", b"01/15/2024  12:30 PM    <DIR>          ",
+              b"01/15/2024  12:30 PM             1,024 "):
+        cases.append({"op": "list", "raw": "LIST", "listing": L(good1 + b"\r\n" + m + b"\r\n" + good2 + b"\r\n"),
+                      "mutated": "nameless-line", "expect_lines": 3})
     # over-long lines (beyond the 64 KiB stream limit) in listings and in replies
     for n in (65530, 65536, 65537, 70000, 140000):
         big = b"Type=file;Size=1; " + b"n" * n
